@@ -191,6 +191,13 @@ def run(rep, pdb, tier):
         rep.missing("step-solver/argmax", "pivot search exists", "max_abs_in_column not found")
     else:
         check_argmax(rep, pdb, mac, "step-solver", P(2), F(P(0), "rows"), 1, lambda c: P(1))
+    from .c01 import check_gauss
+    check_gauss(rep, pdb, "step-solver/elimination")
+    # the residual test max_residual = f.norm_inf(): no component of the residual is ignored
+    from .c15 import check_norm_inf
+    check_norm_inf(rep, pdb, "vector::Vector<f64>::norm_inf", "residual-norm/f64")
+    check_norm_inf(rep, pdb, "vector::Vector<complex::Complex<f64>>::norm_inf", "residual-norm/Cmplx")
+    rep.floor("residual-norm/", 2)
     rep.floor("step-solver/", 1)
     rep.floor("state/receiver/", 6)
     rep.floor("bounded/loop/", 6)
